@@ -369,11 +369,57 @@ def rule_served(program, ctx, prop=P, rid="C08.served"):
             ctx.bad(finding_at(prop, rid, s, "ViewEventResource keeps a class-level cache of events"))
 
 
+def rule_until(program, ctx, prop=P, rid="C08.until"):
+    from ..lib import expand_aliases
+
+    ctx.rule(
+        rid,
+        "sibling agreement on the scanner's upper bound: Index.scanner treats `until` as inclusive (it skips keys only when ts > until) and the kind-5 branch of "
+        "WriterThread._post_save scans the author index with until = event.created_at - 1 (everything strictly older than the deletion request). An exclusive scanner "
+        "with the same call leaves the referenced event that is exactly one second older in place",
+        floor=2,
+    )
+    sc = program.func("nostr_relay.storage.kv:Index.scanner")
+    ops = []
+    for c in ast.walk(sc):
+        if isinstance(c, ast.Compare) and len(c.ops) == 1 and dotted(c.comparators[0]) == "until" and isinstance(c.left, ast.Name):
+            ops.append(c)
+    if not ops:
+        ctx.bad(finding_func(prop, rid, sc, "Index.scanner no longer compares key timestamps with `until`", text="def scanner(...) :: until"))
+        return
+    inclusive = all(isinstance(c.ops[0], ast.Gt) for c in ops)
+    exclusive = all(isinstance(c.ops[0], ast.GtE) for c in ops)
+    for c in ops:
+        ctx.ok(rid, c, f"scanner skips when `{ast.unparse(c)}`") if inclusive or exclusive else ctx.bad(finding_at(prop, rid, c, "mixed until comparisons in the scanner"))
+    ps = program.func("nostr_relay.storage.kv:WriterThread._post_save")
+    n = 0
+    for w in ast.walk(ps):
+        if isinstance(w, ast.Call) and call_name(w).endswith(".scanner") and "authors" in ast.unparse(w.func) and "authorkinds" not in ast.unparse(w.func):
+            n += 1
+            u = next((k.value for k in w.keywords if k.arg == "until"), None)
+            us = ast.unparse(expand_aliases(ps, u)) if u is not None else None
+            good = (inclusive and us in ("event.created_at - 1", "event.created_at")) or (exclusive and us in ("event.created_at", "event.created_at + 1"))
+            if good:
+                ctx.ok(rid, w, f"deletion scan until={us} with an {'inclusive' if inclusive else 'exclusive'} scanner")
+            else:
+                ctx.bad(finding_at(prop, rid, w, f"the deletion scan passes until={us} to a scanner whose upper bound is {'inclusive' if inclusive else 'exclusive'}: referenced events of the "
+                                   "author created one second before the deletion request are not visited and survive it"))
+    if not n:
+        ctx.bad(finding_func(prop, rid, ps, "the kind-5 branch no longer scans the author index", text="def _post_save(...) :: scan"))
+
+
 def run(program, ctx):
+    from ..lib import rule_awaited
+
+    rule_awaited(program, ctx, P, ANCHORS)
     rule_served(program, ctx)
     rule_sql(program, ctx)
     rule_kv(program, ctx)
     rule_reach(program, ctx)
+    rule_until(program, ctx)
+    from . import c07
+
+    c07.rule_sqlregion(program, ctx, prop=P, rid="C08.txn")
     ctx.not_decided += [
         "that the author-index scan yields only that author's keys (scanner byte arithmetic)",
         "completeness: that all referenced older events of the author are removed (beyond the no-all-or-nothing rule)",
